@@ -3,6 +3,11 @@
 //!
 //! {"k":"px_recommit","f":1|2,"ballot":[num,pid],"logs":[{"cp":null|n,"entries":[[slot,[num,pid],val|null],..]},..]}
 //!    -> {"recommit":[[[slot,[num,pid]],val|null],..],"max_slot":[n]|[]}       (one tick)
+//! {"k":"px_acc","ticks":[{"p1a":[[num,pid],..],"p2a":[[sender,[num,pid],slot,val|null],..]},..]}
+//!    -> {"ticks":[{"p1b":[[to,[num,pid],{"ok":[[slot,[num,pid],val|null],..]}|{"err":[num,pid]|null}],..],
+//!                  "p2b":[[to,slot,[num,pid],{"ok":true}|{"err":[num,pid]|null}],..]},..]}
+//!    the ACCEPTOR node of the whole `paxos_core` program (f = 1), as generated for that location by the
+//!    embedded code generator; network channels are fed/collected per tick as bincode bytes.
 //! {"k":"px_index","ticks":[{"max":null|n,"payloads":[..]},..]} -> {"ticks":[[[slot,payload],..],..]}
 use std::cell::RefCell;
 use std::collections::{HashMap, VecDeque};
@@ -74,8 +79,218 @@ macro_rules! recommit {
     }};
 }
 
+type NetItem = Result<(TaglessMemberId, dfir_rs::bytes::BytesMut), std::io::Error>;
+type P1b = (Ballot, Result<P1bLog, Option<Ballot>>);
+type P2b = ((usize, Ballot), Result<(), Option<Ballot>>);
+
+fn j_oballot(b: &Option<Ballot>) -> Value {
+    match b {
+        Some(b) => j_ballot(b),
+        None => Value::Null,
+    }
+}
+
+fn sorted(mut v: Vec<Value>) -> Value {
+    v.sort_by_key(|x| x.to_string());
+    Value::Array(v)
+}
+
+fn run_acceptor(case: &Value) -> Value {
+    use dfir_rs::bytes::{Bytes, BytesMut};
+    let me = TaglessMemberId::from_raw_id(case["id"].as_u64().unwrap_or(0) as u32);
+    let q1: Rc<RefCell<VecDeque<NetItem>>> = Rc::new(RefCell::new(VecDeque::new()));
+    let q2: Rc<RefCell<VecDeque<NetItem>>> = Rc::new(RefCell::new(VecDeque::new()));
+    let cp: Rc<RefCell<VecDeque<usize>>> = Rc::new(RefCell::new(VecDeque::new()));
+    let o1: Rc<RefCell<Vec<(TaglessMemberId, Bytes)>>> = Rc::new(RefCell::new(Vec::new()));
+    let o2: Rc<RefCell<Vec<(TaglessMemberId, Bytes)>>> = Rc::new(RefCell::new(Vec::new()));
+    let mut res = Vec::new();
+    {
+        let (a1, a2) = (o1.clone(), o2.clone());
+        let mut net_out = generated::px_core::px_acceptor::EmbeddedNetworkOut {
+            ch2: move |x: (TaglessMemberId, Bytes)| a1.borrow_mut().push(x),
+            ch4: move |x: (TaglessMemberId, Bytes)| a2.borrow_mut().push(x),
+        };
+        let net_in = generated::px_core::px_acceptor::EmbeddedNetworkIn { ch1: QS(q1.clone()), ch3: QS(q2.clone()) };
+        let mut df = generated::px_core::px_acceptor(&me, QS(cp.clone()), net_in, &mut net_out);
+        for t in case["ticks"].as_array().unwrap() {
+            for b in t["p1a"].as_array().unwrap() {
+                let bal = ballot(b);
+                let from = bal.proposer_id.clone().into_tagless();
+                let bytes = bincode::serialize(&bal).unwrap();
+                q1.borrow_mut().push_back(Ok((from, BytesMut::from(&bytes[..]))));
+            }
+            for m in t["p2a"].as_array().unwrap() {
+                let sender = m[0].as_u64().unwrap() as u32;
+                let p2a = h_paxos_flows::P2a::<u32, h_paxos_flows::Proposer> {
+                    sender: MemberId::from_raw_id(sender),
+                    ballot: ballot(&m[1]),
+                    slot: m[2].as_u64().unwrap() as usize,
+                    value: m[3].as_u64().map(|x| x as u32),
+                };
+                let bytes = bincode::serialize(&p2a).unwrap();
+                q2.borrow_mut().push_back(Ok((TaglessMemberId::from_raw_id(sender), BytesMut::from(&bytes[..]))));
+            }
+            df.run_tick_sync();
+            let mut p1b = Vec::new();
+            for (to, bytes) in o1.borrow_mut().drain(..) {
+                let (b, r): P1b = bincode::deserialize(&bytes).unwrap();
+                let body = match r {
+                    Ok((cp, log)) => {
+                        let mut es: Vec<(usize, Value)> =
+                            log.iter().map(|(s, lv)| (*s, json!([s, j_ballot(&lv.ballot), lv.value]))).collect();
+                        es.sort_by_key(|x| x.0);
+                        json!({"ok": es.into_iter().map(|x| x.1).collect::<Vec<_>>(), "cp": cp})
+                    }
+                    Err(mb) => json!({"err": j_oballot(&mb)}),
+                };
+                p1b.push(json!([to.get_raw_id(), j_ballot(&b), body]));
+            }
+            let mut p2b = Vec::new();
+            for (to, bytes) in o2.borrow_mut().drain(..) {
+                let ((slot, b), r): P2b = bincode::deserialize(&bytes).unwrap();
+                let body = match r {
+                    Ok(()) => json!({"ok": true}),
+                    Err(mb) => json!({"err": j_oballot(&mb)}),
+                };
+                p2b.push(json!([to.get_raw_id(), slot, j_ballot(&b), body]));
+            }
+            res.push(json!({"p1b": sorted(p1b), "p2b": sorted(p2b)}));
+        }
+        drop(df);
+    }
+    json!({"ticks": res})
+}
+
+fn p1blog(v: &Value) -> P1bLog {
+    let mut m = HashMap::new();
+    for e in v.as_array().unwrap() {
+        m.insert(
+            e[0].as_u64().unwrap() as usize,
+            LogValue { ballot: ballot(&e[1]), value: e[2].as_u64().map(|x| x as u32) },
+        );
+    }
+    (None, m)
+}
+
+/// The PROPOSER node of the whole `paxos_core` program (f = 1; proposers {0,1}, acceptors {0,1,2}),
+/// driven tick by tick under a paused tokio clock:
+/// {"k":"px_prop","id":0|1,"ticks":[{"adv_ms":n,"payloads":[..],"hb":[[num,pid],..],
+///    "p1b":[[acc,[num,pid],{"ok":[[slot,[num,pid],val|null],..]}|{"err":[num,pid]|null}],..],
+///    "p2b":[[acc,slot,[num,pid],{"ok":true}|{"err":..}],..]},..]}
+///  -> {"ticks":[{"p1a":[[to,[num,pid]],..],"p2a":[[to,sender,[num,pid],slot,val|null],..],"hb":[[to,[num,pid]],..],
+///               "decided":[[slot,val|null],..],"leader":[[num,pid],..]},..]}
+fn run_proposer(case: &Value) -> Value {
+    use dfir_rs::bytes::{Bytes, BytesMut};
+    use hydro_lang::location::MembershipEvent;
+    let rt = tokio::runtime::Builder::new_current_thread().enable_time().start_paused(true).build().unwrap();
+    rt.block_on(async {
+        let me = TaglessMemberId::from_raw_id(case["id"].as_u64().unwrap_or(0) as u32);
+        let q0: Rc<RefCell<VecDeque<NetItem>>> = Rc::new(RefCell::new(VecDeque::new()));
+        let q2: Rc<RefCell<VecDeque<NetItem>>> = Rc::new(RefCell::new(VecDeque::new()));
+        let q4: Rc<RefCell<VecDeque<NetItem>>> = Rc::new(RefCell::new(VecDeque::new()));
+        let pq: Rc<RefCell<VecDeque<u32>>> = Rc::new(RefCell::new(VecDeque::new()));
+        let mp: Rc<RefCell<VecDeque<(TaglessMemberId, MembershipEvent)>>> = Rc::new(RefCell::new(VecDeque::new()));
+        let ma: Rc<RefCell<VecDeque<(TaglessMemberId, MembershipEvent)>>> = Rc::new(RefCell::new(VecDeque::new()));
+        for i in 0..2 {
+            mp.borrow_mut().push_back((TaglessMemberId::from_raw_id(i), MembershipEvent::Joined));
+        }
+        for i in 0..3 {
+            ma.borrow_mut().push_back((TaglessMemberId::from_raw_id(i), MembershipEvent::Joined));
+        }
+        let o0: Rc<RefCell<Vec<(TaglessMemberId, Bytes)>>> = Rc::new(RefCell::new(Vec::new()));
+        let o1: Rc<RefCell<Vec<(TaglessMemberId, Bytes)>>> = Rc::new(RefCell::new(Vec::new()));
+        let o3: Rc<RefCell<Vec<(TaglessMemberId, Bytes)>>> = Rc::new(RefCell::new(Vec::new()));
+        let dec: Rc<RefCell<Vec<Value>>> = Rc::new(RefCell::new(Vec::new()));
+        let led: Rc<RefCell<Vec<Value>>> = Rc::new(RefCell::new(Vec::new()));
+        let mut res = Vec::new();
+        {
+            let (a0, a1, a3, d2, l2) = (o0.clone(), o1.clone(), o3.clone(), dec.clone(), led.clone());
+            let mut outputs = generated::px_core::px_proposer::EmbeddedOutputs {
+                decided: move |(s, v): (usize, Option<u32>)| d2.borrow_mut().push(json!([s, v])),
+                leader: move |b: Ballot| l2.borrow_mut().push(j_ballot(&b)),
+            };
+            let mut net_out = generated::px_core::px_proposer::EmbeddedNetworkOut {
+                ch0: move |x: (TaglessMemberId, Bytes)| a0.borrow_mut().push(x),
+                ch1: move |x: (TaglessMemberId, Bytes)| a1.borrow_mut().push(x),
+                ch3: move |x: (TaglessMemberId, Bytes)| a3.borrow_mut().push(x),
+            };
+            let net_in = generated::px_core::px_proposer::EmbeddedNetworkIn {
+                ch0: QS(q0.clone()),
+                ch2: QS(q2.clone()),
+                ch4: QS(q4.clone()),
+            };
+            let mem = generated::px_core::px_proposer::EmbeddedMembershipStreams { px_proposer: QS(mp.clone()), px_acceptor: QS(ma.clone()) };
+            let mut df = generated::px_core::px_proposer(&me, mem, QS(pq.clone()), &mut outputs, net_in, &mut net_out);
+            for t in case["ticks"].as_array().unwrap() {
+                let adv = t["adv_ms"].as_u64().unwrap_or(0);
+                if adv > 0 {
+                    tokio::time::advance(std::time::Duration::from_millis(adv)).await;
+                }
+                for p in t["payloads"].as_array().map(|v| v.as_slice()).unwrap_or(&[]) {
+                    pq.borrow_mut().push_back(p.as_u64().unwrap() as u32);
+                }
+                for b in t["hb"].as_array().map(|v| v.as_slice()).unwrap_or(&[]) {
+                    let bal = ballot(b);
+                    let from = bal.proposer_id.clone().into_tagless();
+                    let bytes = bincode::serialize(&bal).unwrap();
+                    q0.borrow_mut().push_back(Ok((from, BytesMut::from(&bytes[..]))));
+                }
+                for m in t["p1b"].as_array().map(|v| v.as_slice()).unwrap_or(&[]) {
+                    let from = TaglessMemberId::from_raw_id(m[0].as_u64().unwrap() as u32);
+                    let body: Result<P1bLog, Option<Ballot>> = if m[2].get("ok").is_some() {
+                        Ok(p1blog(&m[2]["ok"]))
+                    } else if m[2]["err"].is_null() {
+                        Err(None)
+                    } else {
+                        Err(Some(ballot(&m[2]["err"])))
+                    };
+                    let msg: P1b = (ballot(&m[1]), body);
+                    let bytes = bincode::serialize(&msg).unwrap();
+                    q2.borrow_mut().push_back(Ok((from, BytesMut::from(&bytes[..]))));
+                }
+                for m in t["p2b"].as_array().map(|v| v.as_slice()).unwrap_or(&[]) {
+                    let from = TaglessMemberId::from_raw_id(m[0].as_u64().unwrap() as u32);
+                    let body: Result<(), Option<Ballot>> = if m[3].get("ok").is_some() {
+                        Ok(())
+                    } else if m[3]["err"].is_null() {
+                        Err(None)
+                    } else {
+                        Err(Some(ballot(&m[3]["err"])))
+                    };
+                    let msg: P2b = ((m[1].as_u64().unwrap() as usize, ballot(&m[2])), body);
+                    let bytes = bincode::serialize(&msg).unwrap();
+                    q4.borrow_mut().push_back(Ok((from, BytesMut::from(&bytes[..]))));
+                }
+                df.run_tick_sync();
+                let mut p1a = Vec::new();
+                for (to, bytes) in o1.borrow_mut().drain(..) {
+                    let b: Ballot = bincode::deserialize(&bytes).unwrap();
+                    p1a.push(json!([to.get_raw_id(), j_ballot(&b)]));
+                }
+                let mut hb = Vec::new();
+                for (to, bytes) in o0.borrow_mut().drain(..) {
+                    let b: Ballot = bincode::deserialize(&bytes).unwrap();
+                    hb.push(json!([to.get_raw_id(), j_ballot(&b)]));
+                }
+                let mut p2a = Vec::new();
+                for (to, bytes) in o3.borrow_mut().drain(..) {
+                    let m: h_paxos_flows::P2a<u32, h_paxos_flows::Proposer> = bincode::deserialize(&bytes).unwrap();
+                    p2a.push(json!([to.get_raw_id(), m.sender.get_raw_id(), j_ballot(&m.ballot), m.slot, m.value]));
+                }
+                res.push(json!({"p1a": sorted(p1a), "p2a": sorted(p2a), "hb": sorted(hb),
+                                "decided": sorted(std::mem::take(&mut *dec.borrow_mut())),
+                                "leader": Value::Array(std::mem::take(&mut *led.borrow_mut()))}));
+            }
+            drop(df);
+        }
+        json!({"ticks": res})
+    })
+}
+
 fn run(case: &Value) -> Value {
     match case["k"].as_str().unwrap_or("") {
+        "px_acc" => run_acceptor(case),
+        "px_prop" => run_proposer(case),
         "px_recommit" => {
             if case["f"].as_u64() == Some(1) {
                 recommit!(case, px_recommit_f1)
@@ -113,5 +328,25 @@ fn run(case: &Value) -> Value {
 }
 
 fn main() {
-    hvcommon::main_loop(run)
+    // the Paxos program prints progress lines with println!: keep fd 1 for the result lines only
+    use std::io::{BufRead, Write};
+    use std::os::fd::{AsRawFd, FromRawFd};
+    let saved = unsafe { libc::dup(1) };
+    let devnull = std::fs::OpenOptions::new().write(true).open("/dev/null").unwrap();
+    unsafe { libc::dup2(devnull.as_raw_fd(), 1) };
+    let mut out = unsafe { std::fs::File::from_raw_fd(saved) };
+    std::panic::set_hook(Box::new(|_| {}));
+    let path = std::env::args().nth(1).expect("usage: h_paxos <cases.jsonl>");
+    let file = std::io::BufReader::new(std::fs::File::open(&path).expect("open case file"));
+    for line in file.lines() {
+        let line = line.unwrap();
+        if line.trim().is_empty() {
+            continue;
+        }
+        let res = match serde_json::from_str::<Value>(&line) {
+            Ok(case) => hvcommon::guarded(|| run(&case)),
+            Err(e) => json!({ "bad_case": e.to_string() }),
+        };
+        writeln!(out, "{}", res).unwrap();
+    }
 }
